@@ -24,7 +24,7 @@ META = {
                 "bit): decided compositionally (frame with stubbed bit encoder + bit encoder alone); one concrete end-to-end tape is demodulated "
                 "as a side check", "free symbolic file names (str.lower on symbolic text is not decided by CrossHair)"],
     "structure": "formats raw/bin/bk_wav/bk_turbo_wav; k in 0..16; directives make_bin, make_raw, make_wav, make_turbo_wav, make_bk0010_rom "
-                 "with default / relative / absolute paths",
+                 "with default / relative / absolute paths; directives whose operands are pending when met; empty and exact-fit tape names; -o / --implicit-bin through main_cli over 15 output names x 7 source names",
     "stubs": ["in the path obligations the two WAV container functions are replaced by a recorder of their arguments (pulse generation of a "
               "70k-sample pilot under tracing is out of budget and is covered by the frame/bits obligations)", "bk_wav.encode_data_bits replaced by a recorder in the framing/checksum obligations (its own correctness is a separate "
               "obligation on the real function)", "compiler.open_device -> in-memory recorder"],
